@@ -155,7 +155,7 @@ pub fn gen_schema(t: &mut Tape, cfg: &GenCfg) -> Schema {
     for _ in 0..n_enums {
         let name = names::type_name(t, &mut types, nc);
         let n = t.range(1, 6);
-        let mut vs = Scope::with_reserved(&["Other"]);
+        let mut vs = Scope::new();
         let values: Vec<String> = (0..n).map(|_| names::enum_value_name(t, &mut vs, nc)).collect();
         let deprecated_values = if t.chance(15) { vec![t.below(values.len())] } else { vec![] };
         schema.enums.push(EnumT { name, values, deprecated_values });
